@@ -30,7 +30,46 @@ def seed_programs():
                 seeds.append((os.path.relpath(os.path.join(d, m), td), files, m))
     for p in sorted(glob.glob(os.path.join(root, "examples", "*.ddp"))):
         seeds.append(("examples/" + os.path.basename(p), {os.path.basename(p): open(p, "rb").read()}, os.path.basename(p)))
+    for name, text in REGRESSION_SEEDS.items():
+        seeds.append(("regression/" + name, {"main.ddp": text.encode()}, "main.ddp"))
     return seeds
+
+
+# inputs on which the frontend crashed once (found by the thorough tier, repaired in /repo); kept as seeds of every tier
+REGRESSION_SEEDS = {
+    "alias-only-parameters": '''Binde "Duden/Ausgabe" ein.
+Die Funktion f mit dem Parameter a vom Typ Zahl, gibt eine Zahl zurück, macht:
+	Gib a plus 1 zurück.
+Und kann so benutzt werden:
+	"<a>"
+Schreibe (1 plus 1) auf eine Zeile.
+''',
+    "alias-of-missing-type": '''Binde "Duden/Ausgabe" ein.
+Wir nennen eine  auch eine Hausnummer.
+Die Hausnummer h ist 22.
+Die Funktion foo mit dem Parameter h vom Typ Hausnummer, gibt eine Hausnummer zurück, macht:
+	Gib h plus 2 zurück.
+Und kann so benutzt werden:
+	"foo <h>"
+Die Funktion bar mit dem Parameter z vom Typ Zahl, gibt eine Hausnummer zurück, macht:
+	Gib z als Hausnummer zurück.
+Und kann so benutzt werden:
+	"bar <z>"
+Schreibe (foo h) auf eine Zeile.
+''',
+    "variable-named-like-kombination": '''Binde "Duden/Ausgabe" ein.
+Wir nennen die Kombination aus
+	der Zahl zahl mit Standardwert 1,
+einen Paar, und erstellen sie so:
+	"ein leerer Paar"
+Die Funktion f mit dem Parameter p vom Typ Paar, gibt eine Zahl zurück, macht:
+	Die Zahl Paar ist 5.
+	Gib (zahl von p) plus Paar zurück.
+Und kann so benutzt werden:
+	"f <p>"
+Schreibe (f (ein leerer Paar)) auf eine Zeile.
+''',
+}
 
 
 def tokenize(sources):
